@@ -115,6 +115,24 @@ Theorem C17_unknown_rule : forall x y, integral x y UnknownRule = Raise ValueErr
 Proof. reflexivity. Qed.
 Print Assumptions C17_unknown_rule.
 
+(** ======== generated arithmetic = model (Gen/Kernels.v is regenerated from the source on every check) ======== *)
+From TW Require Import Model.MatchSpec Model.Process Gen.Kernels Proofs.KernelsLink.
+Theorem C17_generated_rectangle_integral : forall x y, length x = length y ->
+  rectangle_integral__ret (VV y) (rectangle_integral__d (VV x)) = VV (rectangle_integral x y).
+Proof. exact gen_rectangle_integral. Qed.
+Print Assumptions C17_generated_rectangle_integral.
+
+Theorem C17_generated_trapezoid_integral : forall x y, length x = length y ->
+  trapezoid_integral__ret (VV y) (VV x) = VV (trapezoid_integral x y).
+Proof. exact gen_trapezoid_integral. Qed.
+Print Assumptions C17_generated_trapezoid_integral.
+
+Theorem C17_generated_append_one_sample : forall x y p, (2 <= length x)%nat -> y <> [] ->
+  append_one_sample__x (VV x) = VV (fst (append_one_sample x y p)) /\
+  (if p then append_one_sample__y_periodic (VV y) else append_one_sample__y_last (VV y)) = VV (snd (append_one_sample x y p)).
+Proof. exact gen_append_one_sample. Qed.
+Print Assumptions C17_generated_append_one_sample.
+
 Example C17_example :
   average (oversample_linspace [qz 0; qz 1; qz 3] 4) (oversample_pc [qz 5; qz 7; qz 2] 4) 4
   = ([qz 0; qz 1; qz 3], [qz 5; qz 7; qz 2]).
